@@ -2,8 +2,8 @@ from props import S
 
 CFG = {
     "properties_file": "Properties/C03.v",
-    "corr_files": ["Corr/C03.v"],
-    "streams": [S("C03", "drive_nfs", 120, 5000)],
+    "corr_files": ["Corr/C03.v", "Corr/C03x.v"],
+    "streams": [S("C03", "drive_nfs", 120, 5000), S("C03x", "drive_nfs", 60, 2000)],
     "rule": 'per case 10 freshly prepared targets (absent / file with data / directory / symlink) each hit by a CREATE with mode (UNCHECKED, GUARDED, EXCLUSIVE, 3) x random sattr3 mask (mode, uid, gid, size) x credentials, often followed by a second create of the same name (retransmission-like); caches warm or cold, negative entries present; non-trivial = at least one create over an existing object',
     "assumptions": ["the request-level model carries no verifier: EXCLUSIVE over an existing object is known finding k=1"],
     "level_text": "Proved for Model/Srv.v: when an object exists at the target name, GUARDED answers EXIST and leaves the tree unchanged (C03_guarded), EXCLUSIVE leaves it unchanged (C03_exclusive_untouched; its status clause is refuted by a kernel-checked witness, known finding k=1), UNCHECKED leaves a regular file untouched unless size is set and then only truncates that file (C03_unchecked_keep/_size/_frame), never replaces a directory or symlink (C03_unchecked_nonfile); no mode changes the tree when size is not set (C03_no_mode_truncates). Evaluated also on the implementation's dumps.",
